@@ -3,7 +3,7 @@ package main
 func init() {
 	register(&PropDef{
 		ID: "C17", Patterns: []string{"./interp"}, Specs: []string{"build"},
-		Covered: []string{"contains", "buildTagOk", "buildOptionOk", "buildLineOk", "skipFile", "goMinorVersion", "knownOs/knownArch tables", "buildOk: constraints evaluated in the given context, a rejected file adds no yaegi:tags", "where selection is applied: parse consults buildOk before the Go parser and before adding tags; importSrc reads and parses only files skipFile kept", "setYaegiTags visits and sets every tag of a yaegi:tags line"},
+		Covered: []string{"contains", "buildTagOk", "buildOptionOk", "buildLineOk", "skipFile", "goMinorVersion", "knownOs/knownArch tables", "buildOk: constraints evaluated in the given context, a rejected file adds no yaegi:tags", "where selection is applied: parse consults buildOk before the Go parser and before adding tags; importSrc reads and parses only files skipFile kept", "setYaegiTags visits and sets every tag of a yaegi:tags line", "buildOk examines every comment group of the header and every line of each, with the context it was given"},
 		Uncov:   []string{"go/parser's comment groups (opaque)"},
 		Extra: func(r *Run) {
 			r.tableSuperset("interp", "knownOs", "knownOSspec")
@@ -20,7 +20,7 @@ func init() {
 			r.frameCondition("interp")
 			r.deferShape()
 		},
-		Covered: []string{"frame condition on every run-time closure: generation-time (captured) state is read-only", "one fresh frame per call of a script function (call, getFunc, genFunctionWrapper)", "frame locks of runCfg's deferred function (shared with C06)", "every slot of a call frame is allocated by the call (getFunc, genFunctionWrapper, locals of call)", "arguments of `go hostFunc(...)` are copied at the go statement"},
+		Covered: []string{"frame condition on every run-time closure: generation-time (captured) state is read-only", "one fresh frame per call of a script function (call, getFunc, genFunctionWrapper)", "frame locks of runCfg's deferred function (shared with C06)", "every slot of a call frame is allocated by the call (getFunc, genFunctionWrapper, locals of call)", "arguments of `go hostFunc(...)` are copied at the go statement", "a value received after waiting (cancellable receive) goes to the destination of the receive, `l` frames up", "a deferred or goroutine-started pointer-receiver method designates the variable"},
 		Uncov:   []string{"schedules and output equality under interleavings", "races the script itself causes inside frame data", "aliasing through locals (c := captured; c[i] = ...) is not tracked"},
 		Trusted: []string{"T1 go toolchain, go/types", "T2 govc frame checker"},
 	})
@@ -76,7 +76,7 @@ func init() {
 			r.fixStdlibShape()
 			r.flagGating()
 		},
-		Covered: []string{"default table lacks unsafe/syscall/os/exec", "exit entry points bound to the restricted replacements, which never return normally and call no exiting function", "no unwrapped *log.Logger is handed out (function results and variables)", "Getenv/LookupEnv/Setenv/Unsetenv/Clearenv implement the map model over interp.env", "Environ lists exactly the map; ExpandEnv expands through the map's Getenv, never the host's", "New: Options.Env parsed at the first '=', streams and arguments taken from the options, only YAEGI_* host variables read", "print builtins write to the interpreter's stdout only", "cmd/yaegi: each of the syscall / unsafe / unrestricted switches is wired to its own environment variable, flag (default: its own environment value) and Use guard", "shape of the stream/argument redirection closures of fixStdlib"},
+		Covered: []string{"default table lacks unsafe/syscall/os/exec", "exit entry points bound to the restricted replacements, which never return normally and call no exiting function", "no unwrapped *log.Logger is handed out (function results and variables)", "Getenv/LookupEnv/Setenv/Unsetenv/Clearenv implement the map model over interp.env", "Environ lists exactly the map; ExpandEnv expands through the map's Getenv, never the host's", "New: Options.Env parsed at the first '=', streams and arguments taken from the options, only YAEGI_* host variables read", "print builtins write to the interpreter's stdout only", "cmd/yaegi: each of the syscall / unsafe / unrestricted switches is wired to its own environment variable, flag (default: its own environment value) and Use guard", "shape of the stream/argument redirection closures of fixStdlib", "Use keeps a table of its own per package: the caller's map is never adopted, a new package gets a map the interpreter allocated, other packages' tables are kept"},
 		Uncov:   []string{"loggers reachable through struct fields (http.Server.ErrorLog) or interfaces"},
 		Trusted: []string{"T1 go toolchain, go/types, solvers", "T2 govc", "T5 log.Panic* panic without exiting; fmt.Fprint* write only to their writer"},
 	})
@@ -88,7 +88,7 @@ func init() {
 		Extra: func(r *Run) {
 			r.deferShape()
 		},
-		Covered: []string{"runCfg's deferred function runs every deferred entry once, in order (on normal exit; the exceptional exit is a known finding)", "recover reads/clears only the caller frame", "defer producers push-front a fresh record", "defer arguments are copies (syntactic obligation; known finding)", "Execute/EvalWithContext convert every panic into interp.Panic carrying the original value", "restricted exit functions never return normally", "`defer panic(v)` must wait for the function exit (known finding)", "frame locks: released on every explicit exit of runCfg's deferred function; not held across deferred calls (known finding)"},
+		Covered: []string{"runCfg's deferred function runs every deferred entry once, in order (on normal exit; the exceptional exit is a known finding)", "recover reads/clears only the caller frame", "defer producers push-front a fresh record", "defer arguments are copies (syntactic obligation; known finding)", "Execute/EvalWithContext convert every panic into interp.Panic carrying the original value", "restricted exit functions never return normally", "`defer panic(v)` must wait for the function exit (known finding)", "frame locks: released on every explicit exit of runCfg's deferred function; not held across deferred calls (known finding)", "a deferred pointer-receiver method acts on the variable, a value receiver is copied at the defer statement (shared with C07/C08)"},
 		Uncov:   []string{"which run-time faults reflect raises", "panic position in the output", "callBin's defer branch beyond the argument copy"},
 		Trusted: []string{"T1 go toolchain, solvers", "T2 govc", "reflect.Value.Call applies its receiver once and may panic", "T5 log.Panic* panic"},
 	})
@@ -98,7 +98,7 @@ func init() {
 	register(&PropDef{
 		ID: "C02", Patterns: []string{"./interp"}, Specs: []string{"ops", "opsbv"},
 		Extra: func(r *Run) { r.dispatchTables() },
-		Covered: []string{"operand extractors of value.go", "operator generators of op.go: every run-time closure against the Go-spec value per kind", "cfg binary/unary expression cases: an operator node stored into an interface destination has a concrete type its generator can compute in", "dispatch tables, entry by entry: operator token -> action (ast.go, per context), action -> generator (builtin), action -> constant folder (constOp, constBltn)"},
+		Covered: []string{"operand extractors of value.go", "operator generators of op.go: every run-time closure against the Go-spec value per kind", "cfg binary/unary expression cases: an operator node stored into an interface destination has a concrete type its generator can compute in", "dispatch tables, entry by entry: operator token -> action (ast.go, per context), action -> generator (builtin), action -> constant folder (constOp, constBltn)", "neg: float and complex classes are the sign flip (fneg/cneg, not 0 - x)"},
 		Uncov:   []string{"into which slot cfg.go lets a generator write in general (A2)", "float32 double rounding (T7)"},
 		Trusted: []string{"T1 go toolchain, solvers", "T2 govc", "T3 reflect.Value model (Set* truncate to kind, Int/Uint read the content, Convert is Go conversion)", "A1 typing precondition", "A2 genValue/genValueOutput denote operand/destination", "T7 float32 double rounding"},
 	})
@@ -108,7 +108,7 @@ func init() {
 	register(&PropDef{
 		ID: "C03", Patterns: []string{"./interp"}, Specs: []string{"ops", "consts"},
 		Extra: func(r *Run) { r.dispatchTables() },
-		Covered: []string{"representableConst for every integer kind and every integer constant", "constant folders: untyped operands fold to go/constant's operation with the spec token (QUO_ASSIGN exactly for untyped integer results); typed operands compute the kind's operation (every branch: int, float, complex, string; bitwise and shift folders in bit-vector variants)", "typed constant overflow must be rejected (known finding)", "representableConst for float, complex, string and bool kinds", "convertConst / convertConstantValue / genValueAs: single rounding per target kind, no refusal of representable constants", "representable / convertUntyped imply representableConst; return statement, comparison operand and send statement (finding) demand representability", "constant builtins len/complex/real/imag", "default type of untyped constants (by value kind, else by category)", "comparison of two untyped constants is folded with go/constant.Compare", "assignment and index rules of typecheck.go (shared with C12)"},
+		Covered: []string{"representableConst for every integer kind and every integer constant", "constant folders: untyped operands fold to go/constant's operation with the spec token (QUO_ASSIGN exactly for untyped integer results); typed operands compute the kind's operation (every branch: int, float, complex, string; bitwise and shift folders in bit-vector variants)", "typed constant overflow must be rejected (known finding)", "representableConst for float, complex, string and bool kinds", "convertConst / convertConstantValue / genValueAs: single rounding per target kind, no refusal of representable constants", "representable / convertUntyped imply representableConst; return statement, comparison operand and send statement (finding) demand representability", "constant builtins len/complex/real/imag", "default type of untyped constants (by value kind, else by category)", "comparison of two untyped constants is folded with go/constant.Compare", "assignment and index rules of typecheck.go (shared with C12)", "comparison folding: compareConst against go/constant.Compare with the token of constCmp, whose cells are decided entry by entry", "real/imag of constants read their operand with vComplex", "&& and || of two boolean constants give the node its value"},
 		Uncov:   []string{"rounding inside go/constant (its functions are uninterpreted)", "iota bookkeeping and implicit repetition (ast/gta/cfg walks)", "literal parsing", "the remaining places where cfg gives a constant a type (composite literal elements, map keys, call arguments: they go through check.assignment, which is under contract, but the call sites are not)"},
 		Trusted: []string{"T1 go toolchain, solvers", "T2 govc", "T4 go/constant computes exact constant arithmetic (BinaryOp/UnaryOp/Shift/ToInt uninterpreted functions of the token; BitLen(x) <= k iff |x| < 2^k)", "T3 reflect.Value model"},
 	})
@@ -118,7 +118,7 @@ func init() {
 	register(&PropDef{
 		ID: "C19", Patterns: []string{"./interp"},
 		Extra: func(r *Run) { r.debuggerFrame(); r.sessionLifecycle() },
-		Covered: []string{"both loops of runCfg apply exec closures only behind the run-id gate (shared with C09)", "Debugger.exec/enterCall/exitCall assign only debugger state (f.debug, goroutine records, dbg.*)", "setBreakOnLine/setBreakOnCall set exactly their own flag; the visitor of SetBreakpoints keeps function breakpoints in the line pass and vice versa, and a request without breakpoints of one kind leaves those of that kind alone", "Debugger.exec: per-node stop decision against a ghost trace of the event callback (breakpoints always reported, step filters)", "node tracking of the debugger loop (known finding: code-pointer comparison; tie-break pinned)", "originalExecNode: the last matching node in walk order", "Step/Continue/Interrupt/setMode: requests reach the goroutine they name, mode and depth as requested", "getGoRoutine (verified lookup), Terminate (every live routine told, table emptied)", "session goroutine: terminate event deferred first, execution after the resume request"},
+		Covered: []string{"both loops of runCfg apply exec closures only behind the run-id gate (shared with C09)", "Debugger.exec/enterCall/exitCall assign only debugger state (f.debug, goroutine records, dbg.*)", "setBreakOnLine/setBreakOnCall set exactly their own flag; the visitor of SetBreakpoints keeps function breakpoints in the line pass and vice versa, and a request without breakpoints of one kind leaves those of that kind alone", "Debugger.exec: per-node stop decision against a ghost trace of the event callback (breakpoints always reported, step filters)", "node tracking of the debugger loop (known finding: code-pointer comparison; tie-break pinned)", "originalExecNode: the last matching node in walk order", "Step/Continue/Interrupt/setMode: requests reach the goroutine they name, mode and depth as requested", "getGoRoutine (verified lookup), Terminate (every live routine told, table emptied)", "session goroutine: terminate event deferred first, execution after the resume request", "the breakpoint walk visits the whole tree (never prunes below a node that received a breakpoint) and resets stale line breakpoints"},
 		Uncov:   []string{"order of events across nodes and goroutines", "that no event follows the terminate event at run time (only its registration order is checked)"},
 		Trusted: []string{"T1 go toolchain, solvers", "T2 govc", "A3 sequential semantics"},
 	})
@@ -128,7 +128,7 @@ func init() {
 	register(&PropDef{
 		ID: "C12", Patterns: []string{"./interp"},
 		Extra:   func(r *Run) { r.compilePhaseEffects(); r.opTables() },
-		Covered: []string{"eval reaches Execute only after compileSrc returned no error", "compile-phase functions reach no execution function in the static call graph (importSrc reported separately)", "exec closures are applied only at run time", "assignableTo: identical types accepted, distinct defined types rejected", "comparison: comparable / ordered / nil rules", "convertibleTo: exactly the admitted conversions", "op / shift / conversion / assignment / index / typeAssertionExpr / sliceExpr rules", "operator admissibility tables (ground)", "binaryExpr: operands of arithmetic have identical types", "unaryExpr / starExpr / addressExpr / arrayLitExpr / mapLitExpr / structLitExpr / argument / arguments rules", "call sites in cfg.go: every rule is consulted with the node the specification names and its error is the node's error (composite literals, assignments, address, inc/dec, slice, dereference, type assertion, index, call/builtin/conversion, binary, unary); instantiation errors are reported", "builtin rule (counts, spread, operand kinds), host struct literals, boolean conditions of for/if, undefined identifiers, result counts and assignability of return, send statements (direction, assignability)", "representableConst (shared with C03)"},
+		Covered: []string{"eval reaches Execute only after compileSrc returned no error", "compile-phase functions reach no execution function in the static call graph (importSrc reported separately)", "exec closures are applied only at run time", "assignableTo: identical types accepted, distinct defined types rejected", "comparison: comparable / ordered / nil rules", "convertibleTo: exactly the admitted conversions", "op / shift / conversion / assignment / index / typeAssertionExpr / sliceExpr rules", "operator admissibility tables (ground)", "binaryExpr: operands of arithmetic have identical types", "unaryExpr / starExpr / addressExpr / arrayLitExpr / mapLitExpr / structLitExpr / argument / arguments rules", "call sites in cfg.go: every rule is consulted with the node the specification names and its error is the node's error (composite literals, assignments, address, inc/dec, slice, dereference, type assertion, index, call/builtin/conversion, binary, unary); instantiation errors are reported", "builtin rule (counts, spread, operand kinds), host struct literals, boolean conditions of for/if, undefined identifiers, result counts and assignability of return, send statements (direction, assignability)", "representableConst (shared with C03)", "builtin rule: copy needs a slice destination and a slice or string source"},
 		Uncov:   []string{"selector expressions (fields, methods), range clauses, labels", "implements against the Go spec", "name resolution errors in cfg.go/gta.go", "calls through function values and interfaces in the call graph"},
 		Trusted: []string{"T1 go toolchain, solvers", "T2 govc", "itype.equals/underlying/id are pure functions of their receiver"},
 	})
@@ -138,7 +138,7 @@ func init() {
 	register(&PropDef{
 		ID: "C15", Patterns: []string{"./interp"},
 		Extra:   func(r *Run) { r.phaseOrder(); r.mainLast(); r.depsThroughFunctions() },
-		Covered: []string{"getVarDependencies records every reference to another package-level variable in the initialiser (all positions except selector field names)", "genGlobalVarDecl: canInit is 'all dependencies already emitted'", "phase order root -> variables -> inits -> main in Execute and importSrc", "importSrc evaluates a package at most once", "only dependencies of the same batch block a declaration", "exactly the receiver-less functions named init are collected, appended in walk order", "main is put on the run list once, outside every loop, after every append of init functions (importSrc, CompileAST)", "the symbol of an uninitialised package variable designates its declaration node (what the ordering works on)"},
+		Covered: []string{"getVarDependencies records every reference to another package-level variable in the initialiser (all positions except selector field names)", "genGlobalVarDecl: canInit is 'all dependencies already emitted'", "phase order root -> variables -> inits -> main in Execute and importSrc", "importSrc evaluates a package at most once", "only dependencies of the same batch block a declaration", "exactly the receiver-less functions named init are collected, appended in walk order", "main is put on the run list once, outside every loop, after every append of init functions (importSrc, CompileAST)", "the symbol of an uninitialised package variable designates its declaration node (what the ordering works on)", "genGlobalVarDecl examines every dependency of a variable before emitting it", "main is scheduled only by the piece that declares it (shared with C11)"},
 		Uncov:   []string{"dependencies through the bodies of functions and methods (known finding)", "that the emitted order is the earliest-ready order of the Go spec (whole-loop invariant not attempted)"},
 		Trusted: []string{"T1 go toolchain, solvers", "T2 govc", "scope.lookup and childPos are pure functions"},
 	})
@@ -155,7 +155,7 @@ func init() {
 	register(&PropDef{
 		ID: "C18", Patterns: []string{"./extract"},
 		Extra:   func(r *Run) { r.extractShape() },
-		Covered: []string{"fixConst: exact textual value and token per constant kind, helper imports recorded", "classification switch of genContent: constants and functions by value, variables by address, types as types, generic objects skipped (shape obligations)", "qualifier: every foreign package printed is imported", "constraint-interface test on the complete method set", "wrapper method strings: parameters, variadic last parameter, arguments, results, receiver qualification", "genBuildTags: go1.N, with the exclusion of go1.N+1 unless N is the newest known release", "float constants printed with at least one decimal digit per mantissa bit", "every untyped constant (IsUntyped bit) goes through fixConst"},
+		Covered: []string{"fixConst: exact textual value and token per constant kind, helper imports recorded", "classification switch of genContent: constants and functions by value, variables by address, types as types, generic objects skipped (shape obligations)", "qualifier: every foreign package printed is imported", "constraint-interface test on the complete method set", "wrapper method strings: parameters, variadic last parameter, arguments, results, receiver qualification", "genBuildTags: go1.N, with the exclusion of go1.N+1 unless N is the newest known release", "float constants printed with at least one decimal digit per mantissa bit", "every untyped constant (IsUntyped bit) goes through fixConst", "one iteration of the interface method loop: an exported method gets exactly one entry, named after it and rendered from the signature of that method of that interface"},
 		Uncov:   []string{"template rendering and format.Source", "that the output compiles for every package", "float constants are printed from a big.Float (see C14 finding)"},
 		Trusted: []string{"T1 go toolchain, solvers", "T2 govc", "fmt.Sprintf is a pure function of its arguments; go/constant ExactString/String are distinct pure functions"},
 	})
@@ -164,7 +164,7 @@ func init() {
 func init() {
 	register(&PropDef{
 		ID: "C04", Patterns: []string{"./interp"},
-		Covered: []string{"single assignment copies content into the existing location", "define (:=) allocates a new location holding the copy and leaves the previous one untouched", "multi-assignment reads every right-hand side into a fresh temporary before the first write (first loop of the swap-safe closure)", "slice expressions: operands in order", "spread argument of a variadic call shares the caller's slice", "len/cap/append/copy/delete builtins, address-of and dereference, map index, map and array literals, make: result against the reflect model (append: one growth for all values)", "v, ok := m[k]: zero value for an absent key; a[i]: the aliasing element; range: one evaluation of the operand, iteration over the snapshot; call: arguments copied into the parameter slots"},
+		Covered: []string{"single assignment copies content into the existing location", "define (:=) allocates a new location holding the copy and leaves the previous one untouched", "multi-assignment reads every right-hand side into a fresh temporary before the first write (first loop of the swap-safe closure)", "slice expressions: operands in order", "spread argument of a variadic call shares the caller's slice", "len/cap/append/copy/delete builtins, address-of and dereference, map index, map and array literals, make: result against the reflect model (append: one growth for all values)", "v, ok := m[k]: zero value for an absent key; a[i]: the aliasing element; range: one evaluation of the operand, iteration over the snapshot; call: arguments copied into the parameter slots", "array and slice literals are built in a value made for this evaluation and stored into the destination afterwards"},
 		Uncov:   []string{"sequences of operations (the property's history quantifier)", "other call argument copies, range copies, struct composite literals, new, rangeMap / rangeInt", "reflect's own copy semantics (T3)"},
 		Trusted: []string{"T1 go toolchain, solvers", "T2 govc", "T3 reflect.Value model (Set copies content, New allocates)", "value functions are pure lookups returning pre-state locations"},
 	})
@@ -173,8 +173,8 @@ func init() {
 func init() {
 	register(&PropDef{
 		ID: "C07", Patterns: []string{"./interp"},
-		Covered: []string{"script calling a host function from a multi-value assignment: each result is stored in a new slot for a newly declared variable and in place for a redeclared or assigned one (slot identity, for every position)", "plain host call: result i is stored in slot findex+i, func results replace the slot, no other slot is touched", "frame ids of wrapper frames (shared with C09/C10)", "callBin argument vectors (variadic spread, interface wrapping by the first implemented interface of getMapType)", "genFunctionWrapper: host arguments land in the parameter slots, results are read from the result slots", "genValueRecv: a pointer is followed at every step of an embedded-field path", "Symbols: wrappers and variables are bound to the root frame", "getWrapper: composed wrappers are chosen by the complete method set", "method values bind their receiver when evaluated (value receivers copied)"},
-		Uncov:   []string{"getFunc's result slice", "genInterfaceWrapper beyond the wrapper choice", "Execute's wrapping of function results, Use table copy", "reflect.Call itself"},
+		Covered: []string{"script calling a host function from a multi-value assignment: each result is stored in a new slot for a newly declared variable and in place for a redeclared or assigned one (slot identity, for every position)", "plain host call: result i is stored in slot findex+i, func results replace the slot, no other slot is touched", "frame ids of wrapper frames (shared with C09/C10)", "callBin argument vectors (variadic spread, interface wrapping by the first implemented interface of getMapType)", "genFunctionWrapper: host arguments land in the parameter slots, results are read from the result slots", "genValueRecv: a pointer is followed at every step of an embedded-field path", "Symbols: wrappers and variables are bound to the root frame", "getWrapper: composed wrappers are chosen by the complete method set", "method values bind their receiver when evaluated (value receivers copied)", "valueInterfaceValue removes every interpreter wrapper and returns a plain value as it is"},
+		Uncov:   []string{"getFunc's result slice", "genInterfaceWrapper beyond the wrapper choice", "Execute's wrapping of function results", "reflect.Call itself"},
 		Trusted: []string{"T1 go toolchain, solvers", "T2 govc", "T3 reflect.Value model", "value functions are pure lookups; destinations of one assignment are distinct slots (assumed)"},
 	})
 }
@@ -183,7 +183,7 @@ func init() {
 	register(&PropDef{
 		ID: "C11", Patterns: []string{"./interp"},
 		Extra:   func(r *Run) { r.phaseOrder(); r.frameLayoutResync() },
-		Covered: []string{"resizeFrame keeps every existing global slot (same location) and only grows the frame", "Execute phase order", "the importer's frame layout is re-synchronised after every successful source import", "source name of an unnamed piece", "main scheduled only by the piece that defines it", "multi-value definitions stay redeclarable across pieces", "nested := (known finding) and top-level comma-ok definitions (known finding)", "gta: every name of a package-level definition gets a global symbol; `var x T` symbols designate the declaration", "cfg: retyping a symbol updates the frame layout for every slot"},
+		Covered: []string{"resizeFrame keeps every existing global slot (same location) and only grows the frame", "Execute phase order", "the importer's frame layout is re-synchronised after every successful source import", "source name of an unnamed piece", "main scheduled only by the piece that defines it", "multi-value definitions stay redeclarable across pieces", "nested := (known finding) and top-level comma-ok definitions (known finding)", "gta: every name of a package-level definition gets a global symbol; `var x T` symbols designate the declaration", "cfg: retyping a symbol updates the frame layout for every slot", "genGlobalVarDecl: variables of a later piece wait for each other only (shared with C15)"},
 		Uncov:   []string{"equality of outputs across cuts of a program", "incremental parse classification (ast.go parse / wrapInMain)", "redefinition of functions and types", "Compile/Execute vs Eval equivalence"},
 		Trusted: []string{"T1 go toolchain, solvers", "T2 govc"},
 	})
